@@ -86,7 +86,7 @@ NegObj(obj) == [v \in DOMAIN obj |-> -obj[v]]
 \* hint h: [kind, q, d, vn, vd, ray, lam, mu]
 OptTruth(rows, obj, nameSeq, h) ==
   IF h.kind = "optimal"
-       /\ h.vd > 0 /\ InBox(Rng(nameSeq), h.q, h.d) /\ AllHoldAt(rows, h.q, h.d)
+       /\ h.vd > 0 /\ h.d > 0 /\ AllHoldAt(rows, h.q, h.d)       \* C12 is not read inside a box: a feasible point and a matching dual bound
        /\ PSum(DOMAIN obj, LAMBDA v : obj[v] * Val(h.q, v)) * h.vd = h.vn * h.d
        /\ NoBox(rows, h) /\ FarkasExact(rows, nameSeq, ObjRow(obj, h.vn, h.vd), h)
   THEN "optimal"
